@@ -366,6 +366,9 @@ pub fn generate(seed: u64, n: usize, thorough: bool, _corpus: Option<&str>) -> V
     // seeded known defect (liveness of the pipeline): a reduced cost below the absolute tolerance
     problem(&std_from(vec![-2.0, -0.00000999, 0.0, 0.0], vec![(vec![1.0, 0.0, -1.0, 0.0], 3.0), (vec![1.0, 0.0, 0.0, 1.0], 3.0)], false, 0.0),
         tol, &["stream:seeded-known-defect".to_string()], &[], &mut cases);
+    // seeded known defect (liveness): two ratios 9e-6 apart count as a tie, the row with the larger one is kept
+    problem(&std_from(vec![-2.0, 0.0, 0.0], vec![(vec![10000.0, 1.0, 0.0], 200000000000.09998), (vec![10000.0, 0.0, 1.0], 200000000000.00998)], false, 0.0),
+        tol, &["stream:seeded-known-defect".to_string(), "seeded:ratio-tie-within-tolerance".to_string()], &[], &mut cases);
     // ---- C13's engine: every kind pattern of small models, standardised by the real code
     let (maxv, maxr) = if thorough { (3, 3) } else { (2, 2) };
     for nv in 1..=maxv {
